@@ -548,11 +548,37 @@ def run(tier, seed, replay=None):
         if ex:
             exprs.append(f"run_express {fpose(ex['old'])} {fpose(ex['new'])} {flist(ex['before'], fv)}")
             idx.append((i, "express"))
+        for k, o in enumerate(r.get("history") or []):
+            sf = o["got"].get("surface")
+            if sf:
+                exprs.append(f"[run_wrench {flist(sf['forces'], fv)} {flist(sf['coms'], fv)} {fv(sf['com1'])} {fv(sf['com2'])} {fpose(sf['frame2world'])}]")
+                idx.append((i, ("history", k)))
     try:
         outs = hg.coq_eval(cm, PID, MODEL_HEADER, exprs, "model", max(4, len(exprs) // (2 * cm.NCPU) + 1), 1500, BUILD_TARGETS)
         for (i, kind), txt in zip(idx, outs):
             c, r = cases[i], res[i]
             m = hg.parse_coq_value(txt)
+            if isinstance(kind, tuple):
+                # a history step: the implementation's wrenches against the proven wrench algebra (Model/HydroWrench.v) applied to
+                # its own contact surface, with the centres of mass of the (possibly re-expressed) bodies as they are
+                k = kind[1]
+                o = r["history"][k]["got"]
+                sf = o["surface"]
+                stats["wrench_model_compared"] += 1
+                Lh = 1.0 + max(norm(sub(p, sf["com1"])) for p in sf["coms"]) + max(norm(sub(p, sf["com2"])) for p in sf["coms"])
+                sc = max(1e-300, sf["force_abs_sum"])
+                got = o["w12"] + o["w21"]
+                df = max(dev(m[0][0:3], got[0:3]), dev(m[0][6:9], got[6:9])) / sc
+                dt = max(dev(m[0][3:6], got[3:6]), dev(m[0][9:12], got[9:12])) / (sc * Lh)
+                stats["max_wrench_dev"] = max(stats["max_wrench_dev"], df, dt)
+                if df > 1e-9 or dt > 1e-9:
+                    st = c["history"]["steps"][k]
+                    R.failure(f"history step {k} ({st['mode']}, bodies {st['pair']}): the wrenches returned for the implementation's own contact "
+                              f"surface are not those of the wrench algebra proved in Props/C16.v (torque about each body's own centre of "
+                              f"mass; com1 = {sf['com1']}, com2 = {sf['com2']}): force deviation {df:.3g}, torque deviation {dt:.3g} "
+                              f"(relative to the sum of the contact force magnitudes x lever arm); implementation {got}, model {m[0]}",
+                              c, site="accumulate_wrenches (call history)")
+                continue
             if kind == "wrench":
                 it = r["internals"]
                 stats["wrench_model_compared"] += 1
@@ -562,7 +588,10 @@ def run(tier, seed, replay=None):
                 df = max(dev(m[0][0:3], got[0:3]), dev(m[0][6:9], got[6:9])) / sc
                 dt = max(dev(m[0][3:6], got[3:6]), dev(m[0][9:12], got[9:12])) / (sc * Ls)
                 stats["max_wrench_dev"] = max(stats["max_wrench_dev"], df, dt)
-                if df > 1e-11 or dt > 1e-11:
+                if df > 1e-9 or dt > 1e-9:
+                    R.failure(f"accumulate_wrenches on the implementation's own contact surface deviates from the proven wrench algebra "
+                              f"(Props/C16.v): force {df:.3g}, torque {dt:.3g}; implementation {got}, model {m[0]}", c, site="accumulate_wrenches")
+                elif df > 1e-11 or dt > 1e-11:
                     if len(R.corr_broken) < 6:
                         R.corr_broken.append(f"accumulate_wrenches: model {m[0]} implementation {got}")
                     R.notes.append(dict(wrench_diff=dict(model=m[0], impl=got), case=c))
